@@ -5,6 +5,7 @@ package PKGNAME
 // elapsed-time budget and request deadline, with shutdown and cancellation arriving at any point.
 
 import (
+	"fmt"
 	"context"
 	"errors"
 	"time"
@@ -126,6 +127,11 @@ func VerifC05Retry() {
 			finished = true
 		case 2:
 			a.err = errors.New("transient")
+			if vParam("attemptTimeouts") == 1 && len(attempts) == 0 && vChoice("transient-is-a-per-attempt-timeout", 2) == 1 {
+				// what the timeout sender below the retry sender produces when one attempt runs out of ITS
+				// time: the request's own context is still alive, so this is an ordinary transient failure
+				a.err = fmt.Errorf("attempt timed out: %w", context.DeadlineExceeded)
+			}
 		case 3:
 			a.throttle = time.Duration(vNondetInt64("throttle"))
 			vAssume(a.throttle >= 0 && a.throttle <= 1<<40)
